@@ -1015,6 +1015,8 @@ def _count(ctx, case, evs):
     ctx.count('ops:%s' % ('<=10' if n <= 10 else '<=20' if n <= 20 else '<=30' if n <= 30 else '<=40'))
     if case.get('dups'):
         ctx.count('with_id_collisions')
+    if case.get('small') is not None:
+        ctx.count('small_scope_histories')
     if case.get('torn'):
         ctx.count('torn:all_offsets_cases')
         ctx.extra.setdefault('_torn_files', set()).add((case['torn'][0], case['timeout']))
@@ -1064,6 +1066,32 @@ def _work_cases(cases):
     return cases, [run_history(c) for c in cases]
 
 
+SMALL_ALPHABET = [
+    ['req', 0, 'jar:0', ['r']],
+    ['req', 0, 'jar:0', ['w.1.1']],
+    ['req', 0, 'jar:0', ['r', 'd']],
+    ['req', 0, 'jar:0', ['r', 'g']],
+    ['req', 0, 'jar:0', []],
+    ['req', 1, 'jar:0', ['r', 'w.2.2']],      # a second client presenting the first one's id
+    ['req', 0, 'unk:1', ['r']],
+    ['req', 0, 'old:0:0', ['r']],             # the first id the client ever received
+    ['adv', 1],
+    ['sweep'],
+]
+
+
+def enum_small(depth):
+    """Systematic small scope: every sequence of exactly `depth` operations over a 10/11-symbol alphabet
+    (timeout 1 tick, so expiry-1 / expiry / expiry+1 are all reached), both backends.  Observations are
+    per operation, so the shorter sequences are covered as prefixes."""
+    import itertools
+    for backend in ('ram', 'file'):
+        alpha = SMALL_ALPHABET + ([['tear', 0, 'cut', 7]] if backend == 'file' else [])
+        for seq in itertools.product(range(len(alpha)), repeat=depth):
+            yield {'backend': backend, 'timeout': 1, 'idseed': 0, 'ops': [alpha[k] for k in seq],
+                   'small': list(seq)}
+
+
 def run(ctx):
     for e in ctx.known:
         if e.get('status') == 'known' and 'ops' in e.get('witness', {}):
@@ -1074,6 +1102,9 @@ def run(ctx):
         cases = [gen_case(ctx.rng) for _ in range(ctx.budget(1300, 0))]
         check_cases(ctx, cases)
         check_cases(ctx, torn_cases(ctx.rng, 1))
+        small = list(enum_small(3))
+        check_cases(ctx, small)
+        ctx.extra['exhaustive_small_scope'] = {'depth': 3, 'histories': len(small)}
     else:
         seeds = [(ctx.rng.randrange(1 << 40), 2500) for _ in range(48)]
         for cases, results in common.parallel_map(_work, seeds):
@@ -1082,6 +1113,12 @@ def run(ctx):
         chunks = [tc[i::32] for i in range(32)]
         for cases, results in common.parallel_map(_work_cases, [c for c in chunks if c]):
             _report(ctx, cases, results)
+    if not ctx.quick():
+        small = list(enum_small(4))
+        chunks = [small[i::32] for i in range(32)]
+        for cases, results in common.parallel_map(_work_cases, chunks):
+            _report(ctx, cases, results)
+        ctx.extra['exhaustive_small_scope'] = {'depth': 4, 'histories': len(small)}
     ctx.extra['torn_files_all_offsets'] = len(ctx.extra.pop('_torn_files', ()))
 
 
